@@ -77,10 +77,14 @@ class W(object):
         self.obs[what] = self.obs.get(what, 0) + 1
 
     def case(self, key, desc, fn, budget=None):
-        """run fn() as one journaled case"""
+        """run fn() as one journaled case.  Preparatory cases (key generation, the encryptions later cases start
+        from) also run, unjournaled, while `vf replay` selects one other key."""
         ctx = self.ctx
         if not ctx.begin(key, desc, budget=budget):
-            return None
+            prepares = "_gen|" in key or "_gen_prv|" in key or "_enc|" in key or "_enc1|" in key or "_enc2|" in key or "_enc_prv|" in key
+            if not (prepares and ctx.only is not None and key != ctx.only and key not in ctx.skip):
+                return None
+            ctx.cur_key, ctx.cur_desc = key, desc
         try:
             return fn()
         except MonitorViolation as e:
@@ -408,10 +412,8 @@ class Pke(W):
                 b = bytearray(ct)
                 b[i] ^= rng.randrange(1, 256)
                 muts.append(("byte-mutation", bytes(b)))
-            # ct = 0 and ct = N (plaintext representative 0) are produced by rabin_zero() only: they do not terminate
-            # on the unchanged tree
-            muts += [("truncated", ct[:-1]), ("empty", b""), ("short", ct[:7]), ("ct=1", (1).to_bytes(k, "big")),
-                     ("ct=N+1", (n + 1).to_bytes(k, "big")), ("zero-prefixed", b"\0" + ct)]
+            muts += [("truncated", ct[:-1]), ("empty", b""), ("short", ct[:7]), ("ct=0", bytes(k)), ("ct=N", n.to_bytes(k, "big")),
+                     ("ct=1", (1).to_bytes(k, "big")), ("ct=N+1", (n + 1).to_bytes(k, "big")), ("zero-prefixed", b"\0" + ct)]
             for cls, c2 in muts:
                 def f():
                     good, back, res = self.call_io("cp_rabin_dec", c2, [key["prv"]], cap)
@@ -422,21 +424,6 @@ class Pke(W):
                         ctx.check(1 <= len(back) <= mx and int.from_bytes(model_enc(back), "big") == int.from_bytes(c2, "big") % n,
                                   ctx.cur_key + "|accepted", {"ct": c2.hex(), "got": back.hex()})
                 self.case("cp_rabin_dec|%s" % cls, [bits, c2.hex()], f)
-
-    def rabin_zero(self, bits=520):
-        """directed: the ciphertexts 0 and N decrypt to the representative 0, whose padding scan never ends"""
-        ctx, R = self.ctx, self.R
-        S = R.S
-        pub, prv = S.vf_crt_new(), S.vf_crt_new()
-        if not self.ok(R.call("cp_rabin_gen", pub, prv, bits)):
-            return
-        n = R.crt_get(prv)["n"]
-        k = (n.bit_length() + 7) // 8
-        for cls, cv in (("ct=0", 0), ("ct=N", n)):
-            def f():
-                good, back, res = self.call_io("cp_rabin_dec", cv.to_bytes(k, "big"), [prv], k + 16)
-                ctx.check(not good, ctx.cur_key + "|accepted", {"got": back.hex()})
-            self.case("cp_rabin_dec|%s" % cls, [bits], f, budget=4)
 
     # ------------------------------------------------------------------ Benaloh
     def benaloh(self, block, bits):
@@ -780,7 +767,6 @@ def run_pke(ctx):
     w = Pke(ctx, R)
     q = ctx.quick
     if ctx.shard == 0:
-        w.rabin_zero()      # fatal on some trees: first, in one shard (a restart repeats the shard from its start)
         if not q:
             # block = 2 passes the primality test of cp_bdpe_gen but no prime q has gcd(2, q - 1) = 1: the search never ends
             def b2():
@@ -1021,7 +1007,8 @@ class EcKa(W):
                 ctx.check(not good, ctx.cur_key + "|accepted", {"pos": i, "got": back.hex()})
             self.case("cp_ecies_dec|mutated-%s" % cls, [cname, i, len(ct)], f)
         for cls, c2 in (("tag-truncated", ct[:-1]), ("extended", ct + b"\0"), ("tag-only", ct[-32:]), ("body-block-dropped", ct[16:]),
-                        ("tag-zero", ct[:-32] + bytes(32))):
+                        ("tag-zero", ct[:-32] + bytes(32)), ("len<tag", b""), ("len<tag", ct[-31:]), ("len<tag", ct[:1]),
+                        ("len<block+tag", ct[-47:]), ("len<block+tag", ct[-33:])):
             def f():
                 good, back = self.ecies_dec(c2, Rp, cap)
                 ctx.check(not good, ctx.cur_key + "|accepted", {"got": back.hex()})
@@ -1080,19 +1067,6 @@ class EcKa(W):
         ctx.check(g2 and back == pt, "cp_ecies_dec|%s|round-trip" % cls, {"pt": pt.hex(), "got": back.hex(), "ok": g2})
         return ct, Rp
 
-    def ecies_short(self, cname):
-        """directed: ciphertexts shorter than the tag"""
-        ctx, R = self.ctx, self.R
-        kp = self.keypair("cp_ecies_gen", self.d1, self.Q1)
-        if not kp:
-            return
-        Rp = R.FCv.mul(5, R.G)
-        for ln in (31, 0):
-            def f():
-                good, back = self.ecies_dec(bytes(ln), Rp, 64)
-                ctx.check(not good, ctx.cur_key + "|accepted")
-            self.case("cp_ecies_dec|len<tag", [cname, ln], f, budget=20)
-
     def pedersen(self, cname):
         ctx, R, rng = self.ctx, self.R, self.rng
         E, F, G, n = R.EC, R.FCv, R.G, R.n
@@ -1130,9 +1104,6 @@ def run_ec(ctx):
     w = EcKa(ctx, R)
     ids = R.ep_param_ids()
     ctx.note("curves", [nm for nm, _ in ids])
-    if ctx.shard == 0 and ids:
-        R.set_curve(ids[0][1])
-        w.ecies_short(ids[0][0])        # fatal on some trees: first, in one shard
     for ci, (nm, cid) in enumerate(ids):
         R.set_curve(cid)
         own = ctx.mine(ci)
@@ -1446,10 +1417,11 @@ class Pair(W):
             if honest:
                 ctx.check(good and ret.i == 1 and val_ok, ctx.cur_key + "|value", {"ret": ret.i, "equal": val_ok})
             else:
-                # a tampered answer may only be accepted if it still yields e(P, Q)
+                # a tampered answer may only be accepted if it still yields e(P, Q); otherwise the verifier answers 0
+                # and must not leave a wrong non-trivial value in r
                 ctx.check(val_ok or unity or not good, ctx.cur_key + "|wrong-pairing-value", {"ret": ret.i})
-                if good and not val_ok:
-                    ctx.check(ret.i == 0, ctx.cur_key + "|return-value", {"ret": ret.i, "r-is-unity": unity})
+                if good:
+                    ctx.check(ret.i == (1 if val_ok else 0), ctx.cur_key + "|return-value", {"ret": ret.i, "r-is-unity": unity})
         protos = [("pdpub", 3), ("lvpub", 2), ("pdprv", 4), ("lvprv", 3)]
         for name, ng in protos:
             def run_once(t_kind=None, slot=0):
